@@ -230,3 +230,36 @@ fn qp_deprecated_write_shared_never_returns() {
     h.write(7);
     assert!(false, "deprecated Arc::write returned on a shared Arc");
 }
+
+// the gate must not be short-circuited for an empty slice
+#[kani::proof]
+#[kani::unwind(6)]
+#[kani::stub(std::alloc::alloc, alloc_stub)]
+#[kani::stub(alloc::alloc::dealloc_nonnull, dealloc_stub)]
+fn qp_deprecated_as_mut_slice_empty_shared_never_returns() {
+    crate::ghost::arm();
+    let a: Arc<[MaybeUninit<u16>]> = Arc::new_uninit_slice(0);
+    let other = a.clone();
+    let mut h = a;
+    kani::cover!(true, "reached the shared call");
+    let _ = h.as_mut_slice();
+    assert!(false, "deprecated as_mut_slice returned on a shared (empty) slice instead of panicking");
+}
+#[kani::proof]
+#[kani::unwind(6)]
+#[kani::stub(std::alloc::alloc, alloc_stub)]
+#[kani::stub(alloc::alloc::dealloc_nonnull, dealloc_stub)]
+fn qp_deprecated_as_mut_slice_empty_any_count() {
+    crate::ghost::arm();
+    let a: Arc<[MaybeUninit<u16>]> = Arc::new_uninit_slice(0);
+    let w = ManuallyDrop::new(unsafe { core::ptr::read(&a) });
+    let mut h = a;
+    let c: usize = kani::any();
+    kani::assume(c >= 1 && c <= MAXC);
+    set_count(&w, c);
+    let s = h.as_mut_slice();
+    assert!(c == 1, "deprecated as_mut_slice (empty slice) returned for a shared allocation");
+    assert!(s.is_empty());
+    kani::cover!(true, "sole owner may call it");
+    forget(h);
+}
